@@ -5,7 +5,7 @@ from nvlib import engine as E
 from nvlib.check import Prop
 
 # intervals: 0 = disable; around the short / int boundaries the clamp (fix: C11) is exercised
-INTERVALS = [(0, 8), (1, 14), (2, 8), (3, 5), (4, 2), (5, 1), (-1, 2), (-7, 1), (32767, 1), (32768, 1), (40000, 1),
+INTERVALS = [(0, 14), (1, 14), (2, 8), (3, 5), (4, 2), (5, 1), (-1, 2), (-7, 1), (32767, 1), (32768, 1), (40000, 1),
              (65536, 1), (65537, 1), (4294967296, 1), (4294967297, 1), (-4294967296, 1)]
 
 
